@@ -22,6 +22,7 @@ import (
 	"database/sql"
 	"errors"
 	"fmt"
+	"reflect"
 	"runtime"
 	"sort"
 	"strings"
@@ -65,6 +66,7 @@ const (
 	opPut    = "put"    // Clauses(OnConflict{UpdateAll}).Create(&KV{k,v})  (one INSERT … ON CONFLICT DO UPDATE)
 	opRawPut = "rawput" // Exec("INSERT OR REPLACE INTO kv …")
 	opUpd    = "upd"    // Model(&KV{}).Where("k = ?").Update("v", v)       (changes existing keys only)
+	opSave   = "save"   // Save(&KV{k,v}): UPDATE, and when no row matched INSERT … ON CONFLICT DO UPDATE
 	opDel    = "del"    // Where("k = ?").Delete(&KV{})
 	opRead   = "read"   // Order("k").Find(&rows), compared with the model
 	opSP     = "sp"     // SavePoint(name)
@@ -83,9 +85,12 @@ const (
 	seCtx       = "ctx"       // h.WithContext(ctx)
 	seSkipHooks = "skiphooks" // h.Session(&gorm.Session{SkipHooks: true})
 	seLogger    = "logger"    // h.Session(&gorm.Session{Logger: …})
+	seInit      = "init"      // h.Session(&gorm.Session{Initialized: true}) (a single-use statement instance; never kept)
+	seSkipDef   = "skipdef"   // h.Session(&gorm.Session{SkipDefaultTransaction: true})
+	seNoNest    = "nonest"    // h.Session(&gorm.Session{DisableNestedTransaction: true})
 )
 
-var sessKinds = []string{sePrep, sePrep, sePlain, seNewDB, seCtx, seSkipHooks, seLogger}
+var sessKinds = []string{sePrep, sePrep, sePlain, seNewDB, seCtx, seSkipHooks, seLogger, seInit, seSkipDef, seNoNest}
 
 type ctxKey struct{}
 
@@ -103,34 +108,91 @@ func derive(h *gorm.DB, kind string) *gorm.DB {
 		return h.Session(&gorm.Session{SkipHooks: true})
 	case seLogger:
 		return h.Session(&gorm.Session{Logger: logger.Discard.LogMode(logger.Silent)})
+	case seInit:
+		return h.Session(&gorm.Session{Initialized: true})
+	case seSkipDef:
+		return h.Session(&gorm.Session{SkipDefaultTransaction: true})
+	case seNoNest:
+		return h.Session(&gorm.Session{DisableNestedTransaction: true})
+	}
+	return h
+}
+
+// attr: the two switches that change what the model expects, per handle. A
+// handle inherits them from the handle it was derived from (Session copies the
+// Config; the handle a block function receives is a Session of the handle
+// Transaction was called on).
+type attr struct{ noNest, skipDef bool }
+
+type sessKey struct {
+	base *gorm.DB
+	kind string
+}
+
+func (x *runner) inherit(h, from *gorm.DB) { x.attrs[h] = x.attrs[from] }
+
+func (x *runner) noNest(h *gorm.DB) bool  { return x.c.Cfg.NoNest || x.attrs[h].noNest }
+func (x *runner) skipDef(h *gorm.DB) bool { return x.c.Cfg.SkipDef || x.attrs[h].skipDef }
+
+// session derives (or, for Cached steps, finds again) the session of a step.
+func (x *runner) session(base *gorm.DB, st Step) *gorm.DB {
+	if st.Sess == "" {
+		return base
+	}
+	key := sessKey{base, st.Sess}
+	if st.Cached && st.Sess != seInit {
+		if h, ok := x.sessions[key]; ok {
+			x.class("session:used-again-later")
+			return h
+		}
+	}
+	h := derive(base, st.Sess)
+	a := x.attrs[base]
+	switch st.Sess {
+	case seSkipDef:
+		a.skipDef = true
+	case seNoNest:
+		a.noNest = true
+	}
+	x.attrs[h] = a
+	if st.Cached && st.Sess != seInit {
+		x.sessions[key] = h
 	}
 	return h
 }
 
 // Outcomes of a block body.
 const (
-	outNil      = "nil"      // return nil
-	outErr      = "err"      // return error E(block id)
-	outPanic    = "panic"    // panic(P(block id))
-	outPanicNil = "panicnil" // panic(nil)
-	outGoexit   = "goexit"   // runtime.Goexit() (what t.FailNow does): the whole goroutine unwinds
-	outCommit   = "commit"   // manual: tx.Commit()
-	outRollback = "rollback" // manual: tx.Rollback()
+	outNil      = "nil"             // return nil
+	outErr      = "err"             // return error E(block id)
+	outPanic    = "panic"           // panic(P(block id))
+	outErrU     = "erru"            // return an error whose dynamic type is not comparable (a struct with a slice)
+	outPanicNil = "panicnil"        // panic(nil)
+	outGoexit   = "goexit"          // runtime.Goexit() (what t.FailNow does): the whole goroutine unwinds
+	outCommit   = "commit"          // manual: tx.Commit()
+	outRollback = "rollback"        // manual: tx.Rollback()
+	outCommitRB = "commit+rollback" // manual: defer tx.Rollback(); …; tx.Commit() – the Rollback after the Commit changes nothing
 )
 
 type Step struct {
-	Op      string
-	K       string
-	V       int64
-	Reuse   bool   // put/upd/del: then read through result.Session(&gorm.Session{NewDB: true}) of the handle the write returned
-	Via     int    // 0: the step goes through the block's own handle; n: through the handle of the n-th enclosing block (a captured variable – the same database transaction)
-	Sess    string // "" or the kind of session derived from the chosen handle through which the step is issued (same transaction)
-	Name    string // save point name
-	Rows    []KV   // batch: the rows
-	Size    int    // batch: the batch size
-	Child   *Body
-	Swallow bool // block / batch: the parent ignores the child's error and goes on (otherwise it returns it)
-	Recover bool // block: the parent recovers a panic of the child and goes on (otherwise it propagates)
+	Op        string
+	K         string
+	V         int64
+	Reuse     bool   // put/upd/del: then read through result.Session(&gorm.Session{NewDB: true}) of the handle the write returned
+	Via       int    // 0: the step goes through the block's own handle; n: through the handle of the n-th enclosing block (a captured variable – the same database transaction)
+	Cached    bool   // the derived session is kept and used again by later steps that ask for the same kind from the same handle
+	Conn      bool   // top level: the step runs inside db.Connection(func(c) …) on the dedicated connection handle c
+	Opts      string // block / manual: the *sql.TxOptions argument ("" none, "nil", "zero", "serializable")
+	Read      string // read: how ("" Find, "rawscan", "rows", "count", "subquery")
+	Form      string // batch: value form ("" []KV, "ptrs" []*KV, "array" [n]KV, "maps" []map[string]interface{} with Model)
+	ViaCreate bool   // batch: Create(value) with CreateBatchSize (Config or Session) instead of CreateInBatches(value, size)
+	Sess      string // "" or the kind of session derived from the chosen handle through which the step is issued (same transaction)
+	Name      string // save point name
+	Rows      []KV   // batch: the rows
+	Size      int    // batch: the batch size
+	Child     *Body
+	Swallow   bool // block / batch: the parent ignores the child's error and goes on (otherwise it returns it)
+	Recover   bool // block: the parent recovers a panic of the child and goes on (otherwise it propagates)
 }
 
 // Body is the function of one block: steps, then the outcome (steps behind the
@@ -142,9 +204,12 @@ type Body struct {
 }
 
 type Config struct {
-	Prepare bool // PrepareStmt
-	NoNest  bool // DisableNestedTransaction
-	SkipDef bool // SkipDefaultTransaction
+	Prepare     bool // PrepareStmt
+	NoNest      bool // DisableNestedTransaction
+	SkipDef     bool // SkipDefaultTransaction
+	BatchSize   int  // CreateBatchSize (0 = off)
+	Translate   bool // TranslateError
+	NoReturning bool // dialector registered without RETURNING support
 }
 
 // Fault plan: the K-th (0-based) driver call of category Kind fails.
@@ -183,6 +248,15 @@ func (s Step) render(sb *strings.Builder) {
 	}
 	if s.Sess != "" {
 		via += "~" + s.Sess
+		if s.Cached && s.Sess != seInit {
+			via += "*"
+		}
+	}
+	if s.Opts != "" {
+		via += "(opts:" + s.Opts + ")"
+	}
+	if s.Conn {
+		via += "@conn"
 	}
 	switch s.Op {
 	case opBlock, opManual:
@@ -190,7 +264,7 @@ func (s Step) render(sb *strings.Builder) {
 		defer sb.WriteString(via)
 	}
 	switch s.Op {
-	case opPut, opRawPut, opUpd:
+	case opPut, opRawPut, opUpd, opSave:
 		fmt.Fprintf(sb, "%s(%s,%d)", s.Op, s.K, s.V)
 		if s.Reuse {
 			sb.WriteString("+read")
@@ -202,8 +276,18 @@ func (s Step) render(sb *strings.Builder) {
 		}
 	case opRead:
 		sb.WriteString("read")
+		if s.Read != "" {
+			sb.WriteString(":" + s.Read)
+		}
 	case opBatch:
-		sb.WriteString("batch[")
+		sb.WriteString("batch")
+		if s.ViaCreate {
+			sb.WriteString("-create")
+		}
+		if s.Form != "" {
+			sb.WriteString(":" + s.Form)
+		}
+		sb.WriteString("[")
 		for i, r := range s.Rows {
 			if i > 0 {
 				sb.WriteString(",")
@@ -254,7 +338,17 @@ func (b *Body) render(sb *strings.Builder) {
 
 func (c Case) String() string {
 	var sb strings.Builder
-	fmt.Fprintf(&sb, "cfg{prepare=%d nonest=%d skipdef=%d} fault{%s", b2i(c.Cfg.Prepare), b2i(c.Cfg.NoNest), b2i(c.Cfg.SkipDef), c.Fault.Kind)
+	fmt.Fprintf(&sb, "cfg{prepare=%d nonest=%d skipdef=%d", b2i(c.Cfg.Prepare), b2i(c.Cfg.NoNest), b2i(c.Cfg.SkipDef))
+	if c.Cfg.BatchSize > 0 {
+		fmt.Fprintf(&sb, " batchsize=%d", c.Cfg.BatchSize)
+	}
+	if c.Cfg.Translate {
+		sb.WriteString(" translate=1")
+	}
+	if c.Cfg.NoReturning {
+		sb.WriteString(" noreturning=1")
+	}
+	fmt.Fprintf(&sb, "} fault{%s", c.Fault.Kind)
 	if c.Fault.Kind != fNone {
 		fmt.Fprintf(&sb, "#%d", c.Fault.K)
 	}
@@ -299,7 +393,7 @@ type walker struct {
 func (w *walker) steps(b *Body, kind int) int {
 	for i, st := range b.Steps {
 		switch st.Op {
-		case opPut, opUpd, opDel:
+		case opPut, opUpd, opDel, opSave:
 			w.stmts++
 			if st.Reuse {
 				w.stmts++
@@ -334,7 +428,7 @@ func (w *walker) steps(b *Body, kind int) int {
 			}
 			o := w.steps(st.Child, frManual)
 			w.depth--
-			if o == 0 && st.Child.Out == outCommit {
+			if o == 0 && st.Child.Out != outRollback {
 				w.commits++
 			}
 		case opBlock:
@@ -373,7 +467,7 @@ func (w *walker) steps(b *Body, kind int) int {
 		}
 	}
 	switch b.Out {
-	case outErr:
+	case outErr, outErrU:
 		return 1
 	case outPanic, outPanicNil:
 		return 2
@@ -413,6 +507,23 @@ type blockErr struct{ id int }
 
 func (e *blockErr) Error() string { return fmt.Sprintf("E(block %d)", e.id) }
 
+// blockErrU is an error whose dynamic type is not comparable.
+type blockErrU struct {
+	id   int
+	tags []string
+}
+
+func (e blockErrU) Error() string { return fmt.Sprintf("EU(block %d)", e.id) }
+
+// sameErr: got is (or wraps) the error want the block function returned.
+func sameErr(got, want error) bool {
+	if u, ok := want.(blockErrU); ok {
+		var g blockErrU
+		return errors.As(got, &g) && g.id == u.id
+	}
+	return errors.Is(got, want)
+}
+
 type panicVal struct{ id int }
 
 type spEntry struct {
@@ -441,9 +552,11 @@ type runner struct {
 	nStmt     int
 	harnessEr string
 
-	goexit  bool           // the program has called runtime.Goexit: the goroutine is unwinding
-	handles []*gorm.DB     // handles of the blocks that are running, outermost first
-	active  []*activeBlock // Transaction blocks that are running
+	attrs    map[*gorm.DB]attr
+	sessions map[sessKey]*gorm.DB
+	goexit   bool           // the program has called runtime.Goexit: the goroutine is unwinding
+	handles  []*gorm.DB     // handles of the blocks that are running, outermost first
+	active   []*activeBlock // Transaction blocks that are running
 }
 
 type activeBlock struct {
@@ -558,10 +671,52 @@ func (x *runner) stmt(what string, err error, apply func()) error {
 
 func (x *runner) wrote() { x.writes++ }
 
-func (x *runner) read(h *gorm.DB, where string) error {
+func (x *runner) read(h *gorm.DB, where string) error { return x.readAs(h, where, "") }
+
+// readAs reads the whole table in one query through h and compares it with the model.
+func (x *runner) readAs(h *gorm.DB, where string, how string) error {
 	var rows []KV
-	err := h.Order("k").Find(&rows).Error
+	var err error
+	count := int64(-1)
+	switch how {
+	case "rawscan":
+		x.class("read:raw-scan")
+		err = h.Raw("SELECT k, v FROM kv ORDER BY k").Scan(&rows).Error
+	case "rows":
+		x.class("read:rows-scanrows")
+		var rs *sql.Rows
+		rs, err = h.Model(&KV{}).Order("k").Rows()
+		if err == nil {
+			for rs.Next() {
+				var r KV
+				if e := h.ScanRows(rs, &r); e != nil {
+					err = e
+					break
+				}
+				rows = append(rows, r)
+			}
+			if e := rs.Close(); e != nil && err == nil {
+				err = e
+			}
+		}
+	case "count":
+		x.class("read:count")
+		err = h.Model(&KV{}).Count(&count).Error
+	case "subquery":
+		// a chain built from the ROOT handle passed as an argument: it is only rendered
+		// into the statement, which runs on h's connection / transaction
+		x.class("read:subquery-argument-from-root-handle")
+		err = h.Where("k IN (?)", x.db.DB.Model(&KV{}).Select("k")).Order("k").Find(&rows).Error
+	default:
+		err = h.Order("k").Find(&rows).Error
+	}
 	return x.stmt(where+" read", err, func() {
+		if count >= 0 {
+			if int(count) != len(x.cur) {
+				x.violate("%s: Count sees %d rows, the model has %s", where, count, render(x.cur))
+			}
+			return
+		}
 		got := renderRows(rows)
 		if want := render(x.cur); got != want {
 			x.violate("%s: read sees %s, the model (all writes so far minus what failed blocks / RollbackTo undid) has %s", where, got, want)
@@ -607,8 +762,14 @@ func (x *runner) primitive(h *gorm.DB, st Step, where string) error {
 			return e
 		}
 		return reuse(res)
+	case opSave:
+		res := h.Save(&KV{K: st.K, V: st.V})
+		if e := x.stmt(fmt.Sprintf("%s save(%s,%d)", where, st.K, st.V), res.Error, func() { x.cur[st.K] = st.V; x.wrote() }); e != nil {
+			return e
+		}
+		return nil
 	case opRead:
-		return x.read(h, where)
+		return x.readAs(h, where, st.Read)
 	}
 	x.harnessEr = "unknown primitive " + st.Op
 	return nil
@@ -624,13 +785,59 @@ func (x *runner) batch(h *gorm.DB, st Step, where string, inTx bool) (bool, erro
 	x.class("op:batch")
 	what := fmt.Sprintf("%s %s", where, stepString(st))
 	rows := append([]KV(nil), st.Rows...)
-	nb := (len(rows) + st.Size - 1) / st.Size
+	size := st.Size
+	call := func(value interface{}) *gorm.DB { return h.CreateInBatches(value, size) }
+	if st.ViaCreate {
+		x.class("batch:Create-with-CreateBatchSize")
+		if x.c.Cfg.BatchSize > 0 {
+			size = x.c.Cfg.BatchSize // Config.CreateBatchSize
+			call = func(value interface{}) *gorm.DB { return h.Create(value) }
+		} else {
+			hs := h.Session(&gorm.Session{CreateBatchSize: size})
+			x.inherit(hs, h)
+			h = hs
+			call = func(value interface{}) *gorm.DB { return hs.Create(value) }
+		}
+	}
+	var value interface{} = &rows
+	switch st.Form {
+	case "ptrs":
+		x.class("batch:form-slice-of-pointers")
+		ps := make([]*KV, len(rows))
+		for i := range rows {
+			ps[i] = &rows[i]
+		}
+		value = &ps
+	case "array":
+		x.class("batch:form-array")
+		arr := reflect.New(reflect.ArrayOf(len(rows), reflect.TypeOf(KV{})))
+		for i := range rows {
+			arr.Elem().Index(i).Set(reflect.ValueOf(rows[i]))
+		}
+		value = arr.Interface()
+	case "maps":
+		x.class("batch:form-slice-of-maps")
+		ms := make([]map[string]interface{}, len(rows))
+		for i, r := range rows {
+			ms[i] = map[string]interface{}{"k": r.K, "v": r.V}
+		}
+		value = &ms
+		inner := call
+		model := h.Model(&KV{})
+		if st.ViaCreate {
+			call = func(v interface{}) *gorm.DB { return model.Create(v) }
+		} else {
+			call = func(v interface{}) *gorm.DB { return model.CreateInBatches(v, size) }
+		}
+		_ = inner
+	}
+	nb := (len(rows) + size - 1) / size
 	part := func(j int) []KV {
-		end := (j + 1) * st.Size
+		end := (j + 1) * size
 		if end > len(rows) {
 			end = len(rows)
 		}
-		return st.Rows[j*st.Size : end]
+		return st.Rows[j*size : end]
 	}
 	predicted := nb // first batch that violates the primary key
 	tmp := clone(x.cur)
@@ -644,7 +851,7 @@ func (x *runner) batch(h *gorm.DB, st Step, where string, inTx bool) (bool, erro
 		}
 	}
 	start := len(x.db.Rec.Events())
-	res := h.CreateInBatches(&rows, st.Size)
+	res := call(value)
 	fired := x.takeFired()
 	okB := 0
 	for _, e := range x.db.Rec.Events()[start:] {
@@ -662,7 +869,7 @@ func (x *runner) batch(h *gorm.DB, st Step, where string, inTx bool) (bool, erro
 			x.wrote()
 		}
 	}
-	blockMode := !x.c.Cfg.SkipDef && nb > 1
+	blockMode := !x.skipDef(h) && nb > 1
 	if blockMode {
 		x.class("batch:own-transaction-block")
 	}
@@ -704,10 +911,10 @@ func (x *runner) batch(h *gorm.DB, st Step, where string, inTx bool) (bool, erro
 	}
 	stay := okB // batches whose rows stay (in the transaction / durable) after the failed call
 	if inTx {
-		if blockMode && !x.c.Cfg.NoNest {
+		if blockMode && !x.noNest(h) {
 			stay = 0 // its own nested block: ROLLBACK TO its save point
 		}
-	} else if blockMode || !x.c.Cfg.SkipDef {
+	} else if blockMode || !x.skipDef(h) {
 		stay = 0 // its own outermost block, or a single Create in its default transaction
 	}
 	if okB > 0 && stay == 0 {
@@ -738,7 +945,7 @@ func (x *runner) runSteps(own *gorm.DB, b *Body, fr *frame) error {
 		}
 		base := h
 		if st.Sess != "" {
-			h = derive(base, st.Sess)
+			h = x.session(base, st)
 			x.class("session:" + st.Sess)
 			x.class("session:" + st.Sess + ":" + st.Op)
 		}
@@ -795,7 +1002,7 @@ func (x *runner) runSteps(own *gorm.DB, b *Body, fr *frame) error {
 				}
 			}
 		case opBlock:
-			kind, v, pv := x.callBlock(h, st.Child, false)
+			kind, v, pv := x.callBlock(h, st.Child, false, st.Opts)
 			switch kind {
 			case 1:
 				if !st.Swallow {
@@ -824,6 +1031,9 @@ func (x *runner) runSteps(own *gorm.DB, b *Body, fr *frame) error {
 	case outErr:
 		x.class("outcome:error")
 		return &blockErr{b.ID}
+	case outErrU:
+		x.class("outcome:error(uncomparable type)")
+		return blockErrU{b.ID, []string{"c04"}}
 	case outPanic:
 		x.class("outcome:panic")
 		panic(&panicVal{b.ID})
@@ -842,7 +1052,22 @@ func (x *runner) runSteps(own *gorm.DB, b *Body, fr *frame) error {
 // callBlock runs h.Transaction(child) and checks it against the model. It
 // returns (0,nil,nil) for success, (1,err,nil) when Transaction returned an
 // error, (2,nil,value) when it panicked.
-func (x *runner) callBlock(h *gorm.DB, child *Body, root bool) (int, error, interface{}) {
+func txOptions(kind string) []*sql.TxOptions {
+	switch kind {
+	case "nil":
+		return []*sql.TxOptions{nil}
+	case "zero":
+		return []*sql.TxOptions{{}}
+	case "serializable":
+		return []*sql.TxOptions{{Isolation: sql.LevelSerializable}}
+	}
+	return nil
+}
+
+func (x *runner) callBlock(h *gorm.DB, child *Body, root bool, opts string) (int, error, interface{}) {
+	if opts != "" {
+		x.class("txoptions:" + opts)
+	}
 	where := fmt.Sprintf("Transaction #%d", child.ID)
 	snap := clone(x.cur)
 	x.depth++
@@ -868,7 +1093,7 @@ func (x *runner) callBlock(h *gorm.DB, child *Body, root bool) (int, error, inte
 	failedAfterInner := func() {
 		if me.sameInnerOK && !root {
 			x.class("shape:block-fails-after-same-handle-inner-block-succeeded")
-			if !x.c.Cfg.NoNest {
+			if !x.noNest(h) {
 				x.class("shape:block-fails-after-same-handle-inner-block-succeeded(savepoints)")
 			}
 		}
@@ -893,11 +1118,14 @@ func (x *runner) callBlock(h *gorm.DB, child *Body, root bool) (int, error, inte
 	finish = func() (int, error, interface{}) {
 		fired := x.takeFired()
 
-		undo := root || !x.c.Cfg.NoNest
+		undo := root || !x.noNest(h)
 		if root {
 			x.class("block:outermost")
-		} else if x.c.Cfg.NoNest {
+		} else if x.noNest(h) {
 			x.class("block:nested-disabled")
+			if !x.c.Cfg.NoNest {
+				x.class("block:nested-disabled-by-session")
+			}
 		} else {
 			x.class("block:nested-savepoint")
 		}
@@ -974,7 +1202,7 @@ func (x *runner) callBlock(h *gorm.DB, child *Body, root bool) (int, error, inte
 				x.violate("%s: the block function returned %q but Transaction returned nil: the error was lost", where, fcRet)
 				return 0, nil, nil
 			}
-			if !errors.Is(cerr, fcRet) {
+			if !sameErr(cerr, fcRet) {
 				x.violate("%s: the block function returned %q but Transaction returned %q", where, fcRet, cerr)
 			}
 			return 1, cerr, nil
@@ -1017,6 +1245,7 @@ func (x *runner) callBlock(h *gorm.DB, child *Body, root bool) (int, error, inte
 		}()
 		cerr = h.Transaction(func(tx *gorm.DB) (e error) {
 			entered++
+			x.inherit(tx, h)
 			normal := false
 			defer func() {
 				if normal || x.goexit {
@@ -1030,7 +1259,7 @@ func (x *runner) callBlock(h *gorm.DB, child *Body, root bool) (int, error, inte
 			normal = true
 			fcRet = e
 			return e
-		})
+		}, txOptions(opts)...)
 		returned = true
 	}()
 	finished = true
@@ -1039,7 +1268,10 @@ func (x *runner) callBlock(h *gorm.DB, child *Body, root bool) (int, error, inte
 
 // manual runs tx := db.Begin(); steps…; tx.Commit()/tx.Rollback(). Any error
 // of a step makes the program roll back and stop (the idiomatic reaction).
-func (x *runner) manual(h *gorm.DB, b *Body) {
+func (x *runner) manual(h *gorm.DB, b *Body, opts string) {
+	if opts != "" {
+		x.class("txoptions:" + opts)
+	}
 	where := fmt.Sprintf("manual #%d", b.ID)
 	x.class("block:manual")
 	snap := clone(x.cur)
@@ -1048,12 +1280,18 @@ func (x *runner) manual(h *gorm.DB, b *Body) {
 		x.maxDepth = x.depth
 	}
 	defer func() { x.depth-- }()
-	tx := h.Begin()
+	tx := h.Begin(txOptions(opts)...)
+	x.inherit(tx, h)
 	if x.takeFired() {
 		x.noteFailure()
 		x.class("fault-hit:begin")
 		if !errors.Is(tx.Error, recdrv.ErrInjected) {
 			x.violate("%s: BEGIN failed with the injected error but Begin().Error is %v", where, tx.Error)
+		}
+		if b.ID%2 == 1 {
+			// `tx := db.Begin(); defer tx.Rollback()` without looking at tx.Error: must not crash
+			x.class("manual:rollback-after-failed-begin")
+			tx.Rollback()
 		}
 		return
 	}
@@ -1105,8 +1343,13 @@ func (x *runner) manual(h *gorm.DB, b *Body) {
 		return
 	}
 	switch b.Out {
-	case outCommit:
+	case outCommit, outCommitRB:
 		e := tx.Commit().Error
+		if b.Out == outCommitRB {
+			// the deferred Rollback of `defer tx.Rollback()`: the transaction is finished, it changes nothing
+			x.class("manual:rollback-after-commit")
+			tx.Rollback()
+		}
 		if x.takeFired() {
 			x.noteFailure()
 			x.class("fault-hit:commit")
@@ -1147,9 +1390,11 @@ func runCase(c Case) result {
 		PrepareStmt:              c.Cfg.Prepare,
 		DisableNestedTransaction: c.Cfg.NoNest,
 		SkipDefaultTransaction:   c.Cfg.SkipDef,
-	}})
+		CreateBatchSize:          c.Cfg.BatchSize,
+		TranslateError:           c.Cfg.Translate,
+	}, NoReturning: c.Cfg.NoReturning})
 	defer d.Close()
-	x := &runner{c: c, db: d, cur: map[string]int64{}, classes: map[string]bool{}}
+	x := &runner{c: c, db: d, cur: map[string]int64{}, classes: map[string]bool{}, attrs: map[*gorm.DB]attr{}, sessions: map[sessKey]*gorm.DB{}}
 	if _, err := d.SQL.Exec("CREATE TABLE kv (k TEXT PRIMARY KEY, v INTEGER NOT NULL)"); err != nil {
 		return result{harnessErr: "create table: " + err.Error()}
 	}
@@ -1183,27 +1428,46 @@ func runCase(c Case) result {
 	for _, st := range c.Top.Steps {
 		root := d.DB
 		if st.Sess != "" {
-			root = derive(d.DB, st.Sess)
+			root = x.session(d.DB, st)
 			x.class("session:" + st.Sess)
 			x.class("session:" + st.Sess + ":top-level-" + st.Op)
 		}
 		runTop := func() {
 			switch st.Op {
 			case opBlock:
-				kind, _, pv := x.callBlock(root, st.Child, true)
+				kind, _, pv := x.callBlock(root, st.Child, true, st.Opts)
 				if kind == 2 && pv != nil {
 					if _, ok := pv.(*panicVal); !ok {
 						panic(pv)
 					}
 				}
 			case opManual:
-				x.manual(root, st.Child)
+				x.manual(root, st.Child, st.Opts)
 			case opBatch:
 				x.class("op:top-level-batch")
 				x.batch(root, st, "top level", false)
 			default:
 				x.class("op:top-level-" + st.Op)
 				_ = x.primitive(root, st, "top level")
+			}
+		}
+		if st.Conn {
+			// the step runs on the dedicated connection handle of db.Connection
+			x.class("top-level:inside-Connection")
+			x.class("top-level:inside-Connection:" + st.Op)
+			inner, outer := runTop, root
+			runTop = func() {
+				ran := false
+				err := outer.Connection(func(c *gorm.DB) error {
+					ran = true
+					x.inherit(c, outer)
+					root = c
+					inner()
+					return nil
+				})
+				if err != nil || !ran {
+					x.violate("Connection around top-level step %s: error %v, function ran: %v", stepString(st), err, ran)
+				}
 			}
 		}
 		if st.Child != nil && hasOutcome(st.Child, outGoexit) {
@@ -1265,6 +1529,9 @@ func runCase(c Case) result {
 	x.class(fmt.Sprintf("cfg:prepare=%d", b2i(c.Cfg.Prepare)))
 	x.class(fmt.Sprintf("cfg:nonest=%d", b2i(c.Cfg.NoNest)))
 	x.class(fmt.Sprintf("cfg:skipdef=%d", b2i(c.Cfg.SkipDef)))
+	x.class(fmt.Sprintf("cfg:batchsize=%d", c.Cfg.BatchSize))
+	x.class(fmt.Sprintf("cfg:translate=%d", b2i(c.Cfg.Translate)))
+	x.class(fmt.Sprintf("cfg:noreturning=%d", b2i(c.Cfg.NoReturning)))
 	switch {
 	case c.Fault.Kind == fNone:
 		x.class("fault:none")
@@ -1346,6 +1613,7 @@ func uniform(rt *rapid.T, label string, n int) int {
 }
 
 type gen struct {
+	fav      string
 	startIdx []int // per running block (outermost first): index of the handle it was started from (-1: the root handle)
 	rt       *rapid.T
 	budget   int
@@ -1357,14 +1625,17 @@ type gen struct {
 func (g *gen) value() int64 { g.nextV++; return g.nextV }
 
 func (g *gen) primitive(top bool) Step {
-	ops := []string{opPut, opPut, opPut, opPut, opRawPut, opUpd, opDel, opDel, opRead, opRead}
+	ops := []string{opPut, opPut, opPut, opSave, opSave, opRawPut, opUpd, opDel, opDel, opRead, opRead, opRead}
 	op := ops[uniform(g.rt, "op", len(ops))]
 	st := Step{Op: op}
 	if op != opRead {
 		st.K = keys[uniform(g.rt, "key", len(keys))]
 	}
-	if op == opPut || op == opRawPut || op == opUpd {
+	if op == opPut || op == opRawPut || op == opUpd || op == opSave {
 		st.V = g.value()
+	}
+	if op == opRead {
+		st.Read = []string{"", "", "rawscan", "rows", "count", "subquery"}[uniform(g.rt, "readkind", 6)]
 	}
 	if op == opPut || op == opUpd || op == opDel {
 		st.Reuse = uniform(g.rt, "reuse", 5) == 0
@@ -1431,7 +1702,9 @@ func spNames(id, style int) []string {
 // batch it is in when that key is in the table at that moment.
 func (g *gen) batchStep() Step {
 	n := 2 + uniform(g.rt, "rows", 4)
-	st := Step{Op: opBatch, Size: 1 + uniform(g.rt, "size", 3), Swallow: uniform(g.rt, "swallow", 3) < 2}
+	st := Step{Op: opBatch, Size: 1 + uniform(g.rt, "size", 3), Swallow: uniform(g.rt, "swallow", 3) < 2,
+		Form:      []string{"", "", "", "ptrs", "array", "maps"}[uniform(g.rt, "form", 6)],
+		ViaCreate: uniform(g.rt, "viacreate", 3) == 0}
 	for i := 0; i < n; i++ {
 		v := g.value()
 		st.Rows = append(st.Rows, KV{K: fmt.Sprintf("n%d", v), V: v})
@@ -1451,7 +1724,35 @@ func (g *gen) sess(percent int) string {
 	if uniform(g.rt, "sess?", 100) >= percent {
 		return ""
 	}
-	return sessKinds[uniform(g.rt, "sess", len(sessKinds))]
+	k := sessKinds[uniform(g.rt, "sess", len(sessKinds))]
+	if g.fav == "" {
+		g.fav = k // the case's favourite kind: asked for (and kept) again and again, so that it really is used again later
+	}
+	if g.fav != seInit && uniform(g.rt, "fav", 5) < 2 {
+		return g.fav + "*"
+	}
+	if k != seInit && rapid.Bool().Draw(g.rt, "keep") {
+		k += "*" // kept and used again (normalize turns the mark into Step.Cached)
+	}
+	return k
+}
+
+func (g *gen) opts() string {
+	return []string{"", "", "", "", "", "nil", "zero", "serializable"}[uniform(g.rt, "txopts", 8)]
+}
+
+// normalize moves the "kept session" mark of the generator into Step.Cached.
+func normalize(b *Body) {
+	for i := range b.Steps {
+		st := &b.Steps[i]
+		if strings.HasSuffix(st.Sess, "*") {
+			st.Sess = strings.TrimSuffix(st.Sess, "*")
+			st.Cached = true
+		}
+		if st.Child != nil {
+			normalize(st.Child)
+		}
+	}
 }
 
 // body generates the function of a block at the given depth (1 = outermost).
@@ -1520,7 +1821,7 @@ func (g *gen) body(depth int, manual bool) *Body {
 			g.startIdx = append(g.startIdx, depth-1-v)
 			ch := g.body(depth+1, false)
 			g.startIdx = g.startIdx[:len(g.startIdx)-1]
-			b.Steps = append(b.Steps, Step{Op: opBlock, Child: ch, Via: v, Sess: g.sess(20),
+			b.Steps = append(b.Steps, Step{Op: opBlock, Child: ch, Via: v, Sess: g.sess(20), Opts: g.opts(),
 				Swallow: uniform(g.rt, "swallow", 3) < 2,
 				Recover: rapid.Bool().Draw(g.rt, "recover")})
 		case r < spBelow:
@@ -1548,9 +1849,9 @@ func (g *gen) body(depth int, manual bool) *Body {
 		}
 	}
 	if manual {
-		b.Out = []string{outCommit, outCommit, outRollback}[uniform(g.rt, "end", 3)]
+		b.Out = []string{outCommit, outCommit, outRollback, outCommitRB}[uniform(g.rt, "end", 4)]
 	} else {
-		outs := []string{outNil, outNil, outNil, outNil, outNil, outNil, outNil, outErr, outErr, outErr, outErr, outPanic, outPanic, outPanic, outPanicNil, outGoexit}
+		outs := []string{outNil, outNil, outNil, outNil, outNil, outNil, outNil, outErr, outErr, outErr, outErrU, outPanic, outPanic, outPanic, outPanicNil, outGoexit}
 		b.Out = outs[uniform(g.rt, "outcome", len(outs))]
 	}
 	return b
@@ -1561,6 +1862,9 @@ func genCase(rt *rapid.T) Case {
 	c.Cfg.Prepare = rapid.Bool().Draw(rt, "prepare")
 	c.Cfg.NoNest = uniform(rt, "nonest", 3) == 0
 	c.Cfg.SkipDef = rapid.Bool().Draw(rt, "skipdef")
+	c.Cfg.BatchSize = []int{0, 0, 0, 2, 3}[uniform(rt, "batchsize", 5)]
+	c.Cfg.Translate = uniform(rt, "translate", 4) == 0
+	c.Cfg.NoReturning = uniform(rt, "noreturning", 4) == 0
 	budgets := []int{14, 12, 16, 10, 8, 5}
 	if harness.Thorough() {
 		budgets = []int{18, 14, 22, 10, 26, 6}
@@ -1576,17 +1880,19 @@ func genCase(rt *rapid.T) Case {
 		switch {
 		case r < 65:
 			g.startIdx = []int{-1}
-			c.Top.Steps = append(c.Top.Steps, Step{Op: opBlock, Sess: g.sess(25), Child: g.body(1, false)})
+			c.Top.Steps = append(c.Top.Steps, Step{Op: opBlock, Sess: g.sess(25), Opts: g.opts(), Conn: uniform(rt, "conn", 6) == 0, Child: g.body(1, false)})
 		case r < 82:
 			g.startIdx = []int{-1}
-			c.Top.Steps = append(c.Top.Steps, Step{Op: opManual, Sess: g.sess(25), Child: g.body(1, true)})
+			c.Top.Steps = append(c.Top.Steps, Step{Op: opManual, Sess: g.sess(25), Opts: g.opts(), Conn: uniform(rt, "conn", 6) == 0, Child: g.body(1, true)})
 		case r < 87:
 			st := g.batchStep()
 			st.Sess = g.sess(25)
+			st.Conn = uniform(rt, "conn", 6) == 0
 			c.Top.Steps = append(c.Top.Steps, st)
 		default:
 			st := g.primitive(true)
 			st.Sess = g.sess(25)
+			st.Conn = uniform(rt, "conn", 6) == 0
 			c.Top.Steps = append(c.Top.Steps, st)
 		}
 	}
@@ -1598,6 +1904,7 @@ func genCase(rt *rapid.T) Case {
 		}
 		c.Top.Steps = append(c.Top.Steps, st)
 	}
+	normalize(&c.Top)
 	// fault plan: aim at a call that exists in the fault-free run
 	w := walk(c)
 	kinds := []string{fNone, fNone, fBegin, fCommit, fSavepoint, fSavepoint, fStmt, fStmt, fStmt}
@@ -1647,7 +1954,7 @@ func hasOutcome(b *Body, out string) bool {
 
 func usesSession(b *Body, kind string) bool {
 	for _, st := range b.Steps {
-		if st.Sess == kind || (st.Child != nil && usesSession(st.Child, kind)) {
+		if st.Sess == kind || st.Sess == kind+"*" || (st.Child != nil && usesSession(st.Child, kind)) {
 			return true
 		}
 	}
@@ -1667,7 +1974,7 @@ func ownSavepoints(b *Body) {
 
 const rule = "C04: programs on a key→value table: 1-3 top-level steps (db.Transaction tree of depth ≤4, manual Begin…Commit/Rollback, single write/read), " +
 	"block bodies of put/rawput/upd/del/read/SavePoint/RollbackTo/child-block/CreateInBatches steps (CreateInBatches opens its own block; a batch fails by fault or by a repeated key) ending in return nil | return error | panic(value) | panic(nil) | runtime.Goexit(), parents returning or swallowing a child's error " +
-	"and optionally recovering its panic, every step inside a block going through the block's own handle or the captured handle of any enclosing block (same transaction), optionally through a session derived from that handle (Session{PrepareStmt}, Session{}, Session{NewDB}, WithContext, Session{SkipHooks}, Session{Logger}); manual save point names short, long (67-110 bytes sharing the first 64+ bytes), with digits/underscores/mixed case, private per block; configuration bits PrepareStmt, DisableNestedTransaction, SkipDefaultTransaction; fault plan none or the k-th BEGIN/COMMIT/SAVEPOINT/statement/PREPARE " +
+	"and optionally recovering its panic, every step inside a block going through the block's own handle or the captured handle of any enclosing block (same transaction), optionally through a session derived from that handle (Session{PrepareStmt}, Session{}, Session{NewDB}, WithContext, Session{SkipHooks}, Session{Logger}); manual save point names short, long (67-110 bytes sharing the first 64+ bytes), with digits/underscores/mixed case, private per block; configuration bits PrepareStmt, DisableNestedTransaction, SkipDefaultTransaction (the last two also per Session), CreateBatchSize, TranslateError, RETURNING support; blocks and manual programs with and without *sql.TxOptions and inside db.Connection; fault plan none or the k-th BEGIN/COMMIT/SAVEPOINT/statement/PREPARE " +
 	"driver call fails (never ROLLBACK / ROLLBACK TO); non-trivial = nesting depth ≥2 reached and at least one failure (block returning an error or panicking, fired fault) with successful writes both before and after it; " +
 	"distinct = configuration + fault plan + initial rows + program text"
 
